@@ -9,6 +9,7 @@ CONSTANTS
   Cap = 2
   Buffered = FALSE
   Gaps = "overlap"
+  DropExit = FALSE
   KeepData = TRUE
   ExternalProg <- NoExternal
   Emit = FALSE
